@@ -21,6 +21,7 @@ SPEC = {
     floor_frame=5,
     floor_quat=2,
     floor_ref=(4, 1),
+    floor_sparse=3,
   ),
   "C02": dict(
     entries=["smooth.crb", "smooth.tendon_armature", "smooth.factor_m", "forward.fwd_velocity", "forward.fwd_acceleration", "smooth.solve_m", "support.mul_m", "smooth.rne", "passive.passive"],
@@ -76,6 +77,7 @@ SPEC = {
     enums=[],
     areas=set(),
     what="point, constraint-row, tendon and actuator Jacobian kernels",
+    floor_sparse=3,
     floor_bind=150,
     floor_sort=20,
   ),
@@ -135,13 +137,17 @@ def run_family(db, res, tier, prop, extra=None):
   res.extra["state_quaternion_sites"] = nsq
   if "floor_quat" in spec:
     res.floor("quaternions assembled from qpos (R-NORM.5)", nsq, spec["floor_quat"])
+  nsp = r_sort.check_model_structured_sparse(res, list(scope))
+  res.extra["model_structured_sparse_stores"] = nsp
+  if "floor_sparse" in spec:
+    res.floor("stores into model-structured sparse rows (R-SPARSE.1)", nsp, spec["floor_sparse"])
   nfr = r_ref.check_com_frame(res, list(scope))
   res.extra["com_frame_sites"] = nfr
   if "floor_frame" in spec:
     res.floor("subtree_com reads in com-based kernels (R-FRAME.1)", nfr, spec["floor_frame"])
   if extra is not None:
     extra(db, res, tier, scope)
-  res.rule_text = "R-NORM.5: every quaternion assembled from four qpos loads passes through wp.normalize before any other use; R-FRAME.1: a kernel that touches a com-based spatial quantity (cdof, cvel, cacc, cfrc_*, cinert) reads Data.subtree_com only at body_rootid[...] cells (the reference point those quantities are expressed about); R-REF: a Model reference field that set_const stores as an offset from a Data base cell is decoded against one of the base cells it was encoded against, and a Data field combined with its same-space reference field (qpos/qpos0, ten_length/tendon_length0, ...) is read at the same element; R-BATCH: every batched Model field the stage kernels touch is indexed by the thread's world index modulo that field's own leading extent; R-SORT: an index whose index space is known (thread index over a model extent, value of an index-valued model array, address + offset) is never used in an array dimension of a different space; R-BIND: each launch formal named after a schema field is bound to that field (or a temp/ctx array/tabled pair), ranks agree, read-only Data formals are not written; R-DISPATCH: every enum member the stage dispatches on is still referenced in the areas where the confirmed baseline handles it"
+  res.rule_text = "R-SPARSE.1: a store into a slot of the model-structured sparse tendon Jacobian is dominated by the test that the slot's ten_J_colind entry is the intended dof; R-NORM.5: every quaternion assembled from four qpos loads passes through wp.normalize before any other use; R-FRAME.1: a kernel that touches a com-based spatial quantity (cdof, cvel, cacc, cfrc_*, cinert) reads Data.subtree_com only at body_rootid[...] cells (the reference point those quantities are expressed about); R-REF: a Model reference field that set_const stores as an offset from a Data base cell is decoded against one of the base cells it was encoded against, and a Data field combined with its same-space reference field (qpos/qpos0, ten_length/tendon_length0, ...) is read at the same element; R-BATCH: every batched Model field the stage kernels touch is indexed by the thread's world index modulo that field's own leading extent; R-SORT: an index whose index space is known (thread index over a model extent, value of an index-valued model array, address + offset) is never used in an array dimension of a different space; R-BIND: each launch formal named after a schema field is bound to that field (or a temp/ctx array/tabled pair), ranks agree, read-only Data formals are not written; R-DISPATCH: every enum member the stage dispatches on is still referenced in the areas where the confirmed baseline handles it"
   res.explanation = (
     f"Structural necessary conditions of {prop} for the {spec['what']}: the kernels reachable from {', '.join(spec['entries'])} read and write the arrays "
     "they are declared to (a swapped pair of same-typed launch arguments compiles and passes any test that does not vary both fields), no type member lost its handler, and index spaces (body / joint / dof / qpos / geom / ... ids) are not mixed - a bug class that fixtures hide whenever the spaces coincide numerically (hinge-only models have jntid == dofid == qposadr). "
